@@ -725,3 +725,28 @@ Lemma gen_spawn_setup_stdin_and_group :
   forall cap,
     MSp.stdin_null (G.run_test_inner_setup cap) = true /\ MSp.own_process_group (G.run_test_inner_setup cap) = true.
 Proof. intros cap. exact (PSp.setup_ok_stdin_and_group _ _ (gen_spawn_setup_is_model cap)). Qed.
+
+(* ---------------------------------------------------------------- threads-required (Model/CliRun.v, Model/FutureQueue.v) *)
+(* == block threads_required (needs conv_cli) == *)
+Definition tr_to_model (r : G.ThreadsRequired) : MC.threads_required :=
+  match r with
+  | G.ThreadsRequired_Count n => MC.RCount n
+  | G.ThreadsRequired_NumCpus => MC.RNumCpus
+  | G.ThreadsRequired_NumTestThreads => MC.RNumTestThreads
+  end.
+(* the weight TestRunnerInner::execute gives a test in the queue: ThreadsRequired::compute of the test's setting
+   against `self.test_threads`, the RUNNER's thread count -- the very value that is the queue's global limit *)
+Lemma gen_threads_required_is_model :
+  forall r runner_threads ncpus,
+    G.execute_threads_required r runner_threads ncpus = MC.threads_required_weight (tr_to_model r) runner_threads ncpus.
+Proof. bridge. Qed.
+Lemma gen_queue_limit_is_runner_threads :
+  forall runner_threads, G.execute_queue_limit runner_threads = runner_threads.
+Proof. bridge. Qed.
+(* the queue of C08 ([fq_new limit groups items] with weight = threads-required) as execute builds it: a test that
+   requires "num-test-threads" weighs exactly the limit, under --no-capture too (limit 1) *)
+Lemma gen_num_test_threads_fills_queue :
+  forall runner_threads ncpus,
+    G.execute_threads_required G.ThreadsRequired_NumTestThreads runner_threads ncpus =
+    G.execute_queue_limit runner_threads.
+Proof. bridge. Qed.
